@@ -109,7 +109,7 @@ class RefModel:
                         r = value(e["s"])
                     v, m = r if isinstance(r, tuple) else (r, abs(r))
                     if e.get("et"):
-                        v, m = self._edge_operator(ei, e, v, m, params)
+                        v, m = self._edge_operator(ei, e, v, m, params, value)
                     w = float(params.get(f"edge{ei}/weight", e["w"]))
                     tot += w * v
                     mag += abs(w) * m
@@ -143,7 +143,7 @@ class RefModel:
         value.eval_eq = eval_eq
         return value
 
-    def _edge_operator(self, ei, e, v, m, params):
+    def _edge_operator(self, ei, e, v, m, params, value=None):
         """edge through an EdgeTemplate with ONE algebraic operator: the source value enters the operator's input variable,
         its output (times the weight) reaches the target.  Values: operator defaults <- template-level variations <-
         the edge's attribute dictionary ('op/var')."""
@@ -151,8 +151,15 @@ class RefModel:
         o = et["ops"][0]
         od = self.ops[o]
         env = {}
+        xs = e.get("xs") or {}
+        pre = (e.get("scope") + "/") if e.get("scope") else ""
         for vname, kind, val in od["vars"]:
-            if kind == "input":
+            if kind == "input" and f"{o}/{vname}" in xs:
+                # a further input of the edge operator, fed from a named variable (path relative to the edge's circuit)
+                xv, xm = value(pre + xs[f"{o}/{vname}"])
+                env[vname] = xv
+                m = max(m, xm)
+            elif kind == "input":
                 env[vname] = v
             elif kind == "const":
                 val = (et.get("ov") or {}).get(o, {}).get(vname, val)
@@ -271,6 +278,20 @@ def build_operator(name, od, style=None):
     return OperatorTemplate(name=name, equations=eqs, variables=variables, path=None)
 
 
+def edge_source_attributes(spec, e):
+    """edge through an EdgeTemplate whose operator has further input variables fed from named variables (e["xs"]:
+    {'<op>/<var>': '<variable path relative to the circuit that owns the edge>'}): the attribute dictionary names the
+    input that receives the edge's source ('<template>/<op>/<var>': 'source') and the paths of the other inputs"""
+    if not e.get("xs"):
+        return {}
+    o = spec["etypes"][e["et"]]["ops"][0]
+    src_in = next(v[0] for v in spec["ops"][o]["vars"] if v[1] == "input" and f"{o}/{v[0]}" not in e["xs"])
+    d = {f"{e['et']}/{o}/{src_in}": "source"}
+    for k, path in e["xs"].items():
+        d[f"{e['et']}/{k}"] = path
+    return d
+
+
 def build_circuit(spec, name="net", style=None):
     """Fresh template objects for every call (templates must never be reused across compilations)."""
     from pyrates import CircuitTemplate, EdgeTemplate, NodeTemplate
@@ -296,6 +317,8 @@ def build_circuit(spec, name="net", style=None):
         if e.get("sp") is not None:
             d["spread"] = float(e["sp"])
         for k, v in (e.get("ev") or {}).items():
+            d[k] = v
+        for k, v in edge_source_attributes(spec, e).items():
             d[k] = v
         return (e["s"], e["t"], ets[e["et"]] if e.get("et") else None, d)
 
@@ -488,11 +511,12 @@ def run_circuit(spec, T, dt, outputs, solver="euler", backend="default", vectori
         LAST_FORTRAN_FILE[0] = kwargs["file_name"] + ".f90"
     if dts is not None:
         kwargs["sampling_step_size"] = dts
+    in_place = kwargs.pop("in_place", False)
     with warnings.catch_warnings():
         warnings.simplefilter("ignore")
         return circuit.run(simulation_time=T, step_size=dt, outputs=outputs, solver=solver, backend=backend,
                            vectorize=vectorize, cutoff=cutoff, inputs=inputs, verbose=False, clear=True,
-                           in_place=False, float_precision=float_precision, **kwargs)
+                           in_place=in_place, float_precision=float_precision, **kwargs)
 
 
 # ======================================================================================================
